@@ -591,13 +591,19 @@ class DAGRunConcurrentManager(DAGRunManagerLike):
 
         self._add_case_result(node_id)
 
-        return await self._run_dag(
+        result = await self._run_dag(
             dag=self._get_reduced_dag(
                 self.dag.input_node,
                 (self._node_storage.get_switch_result(node_id)).node_id,
                 is_oneof=dag.is_oneof,
             ),
         )
+
+        # The selected case may have been computed before the switch was resolved (nothing to run),
+        # so the nodes waiting for the switch have to be notified explicitly.
+        await self.__unlock_descendants(node_id)
+
+        return result
 
     async def _run_node(
         self,
